@@ -83,6 +83,8 @@ def decide(out, obs, total, st, rule):
     failing = {fl["line"] for fl in fails}
     origin = {}
     for ln, o in enumerate(vlib.read_ndjson(obs)):
+        if o.get("outcome") == "notrun":
+            continue
         if o.get("outcome") in ("hang", "abort", "harness_panic"):
             out.fail("NEW", "worker %s on a list" % o.get("outcome"), o.get("input_case"), family="worker " + str(o.get("outcome")))
             continue
